@@ -23,7 +23,7 @@ func main() {
 				fmt.Fprintln(out, "bad-op")
 			} else {
 				recvs, more, tr := streamrun.Run(max, wire, sched, streamrun.Options{})
-				fmt.Fprintf(out, "%s c0=%d\n", streamrun.Render(recvs, more, tr.Pos), streamrun.C0(recvs))
+				fmt.Fprintf(out, "%s c0=%s\n", streamrun.Render(recvs, more, tr.Pos), streamrun.C0s(recvs))
 			}
 		}
 		if err != nil {
